@@ -463,6 +463,14 @@ def class_pairs():
                                ("assignment", "int x = 0; x = {1};", "int[] x = {0}; x = {1};"), ("string initialiser", "string t = {\"a\"};", "string[] t = {\"a\"};")]:
         P.append(("array literal where no array is declared", pos, "class A { public constructor() -> A { } }\nfunction main() -> void { %s }" % bad_s,
                   "class A { public constructor() -> A { } }\nfunction main() -> void { %s }" % good_s))
+    # a field may not reuse the name of a field it inherits (bare name, this.f and x.f would be resolved against different classes)
+    hd = "class O { %s public constructor() -> O { } public function f() -> void { } }\nclass M extends O { public constructor() -> M { super(); } }\nclass D extends %s { %s public constructor() -> D { super(); } }\nfunction main() -> void { D d = new D(); d.f(); }"
+    for pos, basef, via, bad_f, good_f in [("private qubit hidden by a private qubit", "private qubit q;", "O", "private qubit q;", "private qubit r;"),
+                                           ("public int hidden by a public register", "public int q = 1;", "O", "public qubit[2] q;", "public qubit[2] r;"),
+                                           ("two levels up", "protected int n = 0;", "M", "public int n = 1;", "public int k = 1;"),
+                                           ("instance field hidden by a static field", "public int n = 0;", "O", "public static int n = 1;", "public static int k = 1;"),
+                                           ("static field hidden by an instance field", "public static int n = 0;", "M", "public int n = 1;", "public int k = 1;")]:
+        P.append(("a field hides an inherited field", pos, hd % (basef, via, bad_f), hd % (basef, via, good_f)))
     # an assignment used as a value carries the type of the assigned value into the position it is written in
     av = "class A { public int f = 1; public constructor() -> A { } }\nfunction g(string s) -> void { echo(s); }\nfunction main() -> void { qubit q; int i = 0; A a = new A(); int[] v = {1}; %s }"
     for pos, bad_s, good_s in [("initialiser", "string s = (i = 3);", "long s = (i = 3);"), ("argument", "g(i = 3);", "g(\"\" + (i = 3));"),
